@@ -1,6 +1,7 @@
 package main
 
 import (
+	"go/constant"
 	"go/ast"
 	"go/token"
 	"go/types"
@@ -10,7 +11,7 @@ func init() {
 	register(&propDef{
 		id: "C42", title: "Reliable point-to-point delivery is ordered and gap-free under message faults",
 		technique: "typestate-style guard dominance on the CFG (edge facts), field write tables with value shapes, who-may-call confinement and type-switch coverage over the producer and consumer controllers",
-		explanation: "Decides the structural safety skeleton of the reliable-delivery protocol: CONSUMER (1) a Delivery is created only in deliverFrame, reached only through deliver/assemble, which are called only on edges where nothing is in flight and the message (or the head of the buffer) carries exactly expectedSeq; (2) expectedSeq changes only on session adoption (to the acked NextSeq) and on a Confirmed that matches the in-flight delivery's session, MessageID and sequence, where it becomes inFlight.Seq()+1; inFlight is set only to the freshly built Delivery and cleared only by those two events; (3) the only re-presentation is the tick re-telling the in-flight delivery while it is non-nil; every Request/Ack carries confirmedSeq; a RegistrationAck announces confirmedSeq+1. PRODUCER (4) sequences are assigned contiguously: every store proposes currentSeq+1, currentSeq is written only from the store result / prepared chunk run, and each append to the unconfirmed buffer is paired with that write; (5) entries leave the unconfirmed buffer only in advanceConfirmed, as the prefix whose Seq ≤ the confirmation, and a confirmation is applied only from the authenticated consumer after the range check ConfirmedSeq ≤ currentSeq; (6) resend happens only for timeout requests and goes through the demand-checked emitter (C43); (7) both Receive switches dispatch every protocol message type. Eventual confirmation and the behaviour over all loss/duplication/reordering histories (liveness, and that these guards compose into a gap-free order) are NOT decided.",
+		explanation: "Decides the structural safety skeleton of the reliable-delivery protocol: CONSUMER (1) a Delivery is created only in deliverFrame, reached only through deliver/assemble, which are called only on edges where nothing is in flight and the message (or the head of the buffer) carries exactly expectedSeq; (2) expectedSeq changes only on session adoption (to the acked NextSeq) and on a Confirmed that matches the in-flight delivery's session, MessageID and sequence, where it becomes inFlight.Seq()+1; inFlight is set only to the freshly built Delivery and cleared only by those two events; (3) the only re-presentation is the tick re-telling the in-flight delivery while it is non-nil; every Request/Ack carries confirmedSeq; a RegistrationAck announces confirmedSeq+1. PRODUCER (4) sequences are assigned contiguously: every store proposes currentSeq+1, currentSeq is written only from the store result / prepared chunk run, and each append to the unconfirmed buffer is paired with that write; (5) entries leave the unconfirmed buffer only in advanceConfirmed, as the prefix whose Seq ≤ the confirmation, and a confirmation is applied only from the authenticated consumer after the range check ConfirmedSeq ≤ currentSeq; (6) resend happens only for timeout requests and goes through the demand-checked emitter (C43); (7) both Receive switches dispatch every protocol message type. Eventual confirmation and the behaviour over all loss/duplication/reordering histories (liveness, and that these guards compose into a gap-free order) are NOT decided. Added after seed C42a: an accepted RegistrationAck always ends in a timeout Request (constant viaTimeout=true) — the silent-tick recovery chain is the only way a lost tail message (no gap visible) is resent.",
 		assumptions: []string{"actor turn atomicity", "timers eventually fire (liveness)", "the composition of the guards into an inductive invariant over message histories"},
 		minObl:     56,
 		run:        runC42,
@@ -127,6 +128,24 @@ func runC42(c *Ctx) {
 		c.guardedBy(rf, newSess, assignTo(rinfo, expected), "adopt/new-session-only", "delivery state is reset only when the acked session differs from the adopted one", c.P.Pos(ra.Decl.Pos()))
 		nonce := rf.FactEdges(func(cm cmp) bool { return cm.Op == token.EQL && isCallNamed(rinfo, cm.L, "Nonce") && isFieldSel(rinfo, cm.R, cc("registrationNonce")) })
 		c.guardedBy(rf, nonce, assignTo(rinfo, expected), "adopt/current-nonce", "only the ack of the latest registration is adopted", c.P.Pos(ra.Decl.Pos()))
+		// The silent-tick recovery chain (tick → register → RegistrationAck → Request) recovers a lost *tail*
+		// message only if the Request it ends in asks for a resend: nothing is buffered behind a lost tail, so
+		// no gap is visible and only a timeout Request makes the producer controller resend it.
+		sendReq := ccFn("sendRequest")
+		resendReq := func(n ast.Node) bool {
+			call, ok := n.(*ast.CallExpr)
+			if !ok || callee(rinfo, call) != sendReq || len(call.Args) != 2 {
+				return false
+			}
+			tv, ok := rinfo.Types[call.Args[1]]
+			return ok && tv.Value != nil && tv.Value.Kind() == constant.Bool && constant.BoolVal(tv.Value)
+		}
+		if len(nonce) == 0 {
+			c.Undecided("recover/ack-solicits-resend", "an accepted RegistrationAck always ends in a timeout Request", c.P.Pos(ra.Decl.Pos()), "nonce acceptance edge not found")
+		} else {
+			w := rf.AfterEdgesMustPass(nonce, resendReq, nil)
+			c.Check(w == nil, "recover/ack-solicits-resend", "an accepted RegistrationAck always ends in a timeout Request (constant viaTimeout=true), the only recovery of a lost tail message", c.P.Pos(ra.Decl.Pos()), rf.describe(w))
+		}
 	})
 
 	c.Rule("re-presentation", func() {
